@@ -318,6 +318,8 @@ theorem varDefinition_post (E : ∀ fuel, ExprIH fuel) (fuel : Nat) (ctx : Ctx) 
       · exact Post.errBind
       pm_if
       · exact Post.errBind
+      pm_if
+      · exact Post.errBind
       · exact key2 ()
     · pm_if
       · exact Post.errBind
